@@ -7,7 +7,8 @@ RULE = (
     "case = selection (grammar over the suite's test sets and tests, one or two alternatives, dotted or multi-line) x "
     "per-vm variant restriction (default, other variant, none, positive/negative) x worker set (lxc, serial, "
     "restricted nets, remote clusters, mixed) x eager parsing or lazy expansion by a traversal; inputs with an empty "
-    "Cartesian product are counted, not judged. Non-trivial = graph with >=2 workers, a multi-object test or a clone. "
+    "Cartesian product are counted, not judged; plus generated suites whose setup DAG (depth, fan-out, multi-object "
+    "tests, multi-producer dependencies) is drawn at random. Non-trivial = graph with >=2 workers, a multi-object test or a clone. "
     "Distinct = canonical JSON of the input."
 )
 ASSUMPTIONS = [
@@ -24,10 +25,24 @@ def judge(graph, ex, case, ctx):
 
 def run(ctx):
     ginspect.run_graph_property(ctx, "C06", judge)
+    # generated suites with random setup DAGs (G2): the same structural invariants
+    from props import c07
+
+    c07.run_generated_suites(ctx, also=lambda graph, ex, case: ginspect.check_structure(graph, ex, case),
+                             compare=False, quick=48, thorough=2400)
 
 
 def replay(ctx, case):
     from vlib.core import Violation
+
+    if isinstance(case, dict) and case.get("part") == "generated-suite":
+        from props import c07
+
+        try:
+            c07.check_generated(case, ctx.scratch, also=lambda graph, ex, c: ginspect.check_structure(graph, ex, c), compare=False)
+        except Violation as violation:
+            return [violation]
+        return []
 
     ginspect.simmod.setup()
     graph, error = ginspect.obtain_graph(case, ctx.scratch)
